@@ -141,8 +141,31 @@ class Model:
                       f'on {ns} ({sorted(w.out[ns])})')
         return id
 
+    NOOP_KEY = 'C09/ack-side-effect'
+
+    def future(self, w):
+        """What the next emit-with-callback on each namespace looks like
+        and what its acknowledgement does (destructive; throw-away world)."""
+        obs = []
+        fired = []
+        for ns in NSS:
+            w.take_outbox()
+            r = w.api('emit', 'fq', 1, namespace=ns,
+                      callback=lambda *a, ns=ns: fired.append((ns, a)))
+            frames = [f for f in w.take_outbox() if f[0] != 'eio']
+            ids = [f[3] for f in frames]
+            obs.append((r[0], tuple(ids),
+                        tuple(i in w.out[ns] for i in ids)))
+            for i in ids:
+                if isinstance(i, int):
+                    w.deliver_packet(3, ns, i, ['fz'])
+        obs.append(tuple(fired))
+        w.task_errors.clear()
+        return tuple(obs)
+
     def apply(self, w, op):
         kind = op[0]
+        w.expect_noop = False
         if kind == 'emitcb':
             _, ns = op
             w.ncb += 1
@@ -208,7 +231,17 @@ class Model:
                 self._bad(w, 'ack-exception', f'{what}: {r!r} '
                           f'{w.task_errors!r}')
                 w.task_errors.clear()
-            if id in w.out[ns]:
+            if id in w.used[ns]:
+                # a repeated ACK: ignored, whatever the id table says now
+                if new:
+                    self._bad(w, 'repeated-ack-fired', f'{what}: id {id} '
+                              f'was acknowledged before on {ns}, yet fired '
+                              f'{new!r}')
+                w.expect_noop = True
+                if id not in w.out[ns] and self.canon(w) != before:
+                    self._bad(w, 'ack-side-effect', f'{what}: repeated ACK '
+                              f'changed the state')
+            elif id in w.out[ns]:
                 k = w.out[ns].pop(id)
                 w.used[ns].add(id)
                 if k and new != {k: [tuple(args)]}:
@@ -222,6 +255,7 @@ class Model:
                               f'outstanding under that id on {ns}, yet '
                               f'fired {new!r}')
                 after = self.canon(w)
+                w.expect_noop = True
                 if after != before:
                     self._bad(w, 'ack-side-effect', f'{what}: unknown id '
                               f'changed the state {before!r} -> {after!r}')
